@@ -40,6 +40,11 @@ def _get_seq_with_type(seq, bufsize=None):
     elif ct.is_fill_request_seq(seq):
         seq_type = "fill_request"
         if not ct.is_fill_request_el(seq):
+            if bufsize is None:
+                # Split reads the whole flow as one buffer.
+                # FillRequest needs a number (used only in its run,
+                # which Split never calls).
+                bufsize = 1
             seq = fill_request_seq.FillRequestSeq(
                 *seq, bufsize=bufsize,
                 # if we have a FillRequest element inside,
